@@ -18,6 +18,9 @@ func (servers Servers) Validate(ctx context.Context, opts ...ValidationOption) e
 	ctx = WithValidationOptions(ctx, opts...)
 
 	for _, v := range servers {
+		if v == nil {
+			return errors.New("invalid server: value MUST be an object")
+		}
 		if err := v.Validate(ctx); err != nil {
 			return err
 		}
@@ -221,6 +224,9 @@ func (server *Server) Validate(ctx context.Context, opts ...ValidationOption) (e
 	sort.Strings(variables)
 	for _, name := range variables {
 		v := server.Variables[name]
+		if v == nil {
+			return fmt.Errorf("invalid server variable %q: value MUST be an object", name)
+		}
 		if !strings.Contains(server.URL, "{"+name+"}") {
 			return errors.New("server has undeclared variables")
 		}
